@@ -10,11 +10,13 @@ Oracle    : (A) deep_same(unmarshal(T, v), v) and v itself unchanged;
 
 from __future__ import annotations
 
+import collections
+
 from harness import inputs, progs, tl
 from harness import universe as U
 from harness.core import st
 from harness import retry
-from harness.oracles import deep_same, diff_bucket, exc_bucket, snapshot, why_different
+from harness.oracles import mutable_ids, deep_same, diff_bucket, exc_bucket, snapshot, why_different
 from harness.props.c01 import value_labels
 
 ID = "C13"
@@ -55,6 +57,32 @@ def check_valid(p, v, col):
                       bucket=diff_bucket(r, v))
     if snapshot(v) != before:
         col.violation("input-unchanged", case, "unmarshal modified a valid input")
+        return
+    # what was returned belongs to the caller: emptying / filling it must not matter to the next call with an equal valid value
+    import copy as _copy
+    muts = [x for x in mutable_ids(r).values() if isinstance(x, (list, set, dict, collections.deque))] if r is not v else []
+    if muts:
+        try:
+            v2 = _copy.deepcopy(v)
+        except Exception:
+            return
+        for m_ in muts[:6]:
+            if any(m_ is x for x in mutable_ids(v).values()):
+                continue      # (an already valid member handed through as it is: the caller's own object)
+            if isinstance(m_, dict):
+                m_["__mutated__"] = 1
+            elif isinstance(m_, set):
+                m_.add("__mutated__")
+            else:
+                m_.append("__mutated__")
+        col.ev()
+        col.label("clause:pass-through-after-mutating-earlier-result")
+        k2, r2 = (tl.call(tl.unmarshal, p.T, v2) if route == 0 else tl.call(lambda: tl.unmarshaller(p.T)(v2)) if route == 1
+                  else tl.call(lambda: tl.codec(p.T).unmarshal(v2)))
+        if k2 == "exc" or not deep_same(r2, v):
+            col.violation("pass-through", dict(case, after_mutation=True),
+                          f"unmarshal({mat.root_expr}, v) after the caller changed the containers of an earlier result: "
+                          f"{'raised ' + tl.exc_name(r2) if k2 == 'exc' else why_different(r2, v)}", bucket="after-mutating-earlier-result")
 
 
 def _two_elem_first(v):
